@@ -46,7 +46,11 @@ def run(cx):
         ok = False
         if kb is not None:
             t = strip_identity(Origins(kb).of_local(0))
-            ok = t[0] == "call" and name_matches(t[1], "tokio::sync::semaphore::Semaphore::new") and strip_identity(t[2][0]) == ("upvar", "max_inflight")
+            ok = t[0] == "call" and name_matches(t[1], "tokio::sync::semaphore::Semaphore::new") and (
+                strip_identity(t[2][0]) == ("upvar", "max_inflight") or
+                # (the closure may sit in an extracted helper: what it captured is then the helper's argument, i.e. the task's own capture)
+                strip_identity(expand_upvars(prog, kb, t[2][0])) == ("upvar", "max_inflight") or
+                (mentions_field(expand_upvars(prog, kb, t[2][0]), "max_inflight") and mentions_param(expand_upvars(prog, kb, t[2][0]), "self")))
         ob.require(ok, "semaphore/created-with-max", "new semaphores are not created with the captured max_inflight", co.path)
         # the acquisitions use the semaphore obtained from that entry
         for c in co.calls_to(("tokio::sync::semaphore::Semaphore::acquire", "tokio::sync::semaphore::Semaphore::try_acquire")):
